@@ -4,6 +4,7 @@ import gzip
 import logging
 import lzma
 import os
+import zlib
 
 from harness.common import cps
 
@@ -46,7 +47,7 @@ def classify(e):
             return {'err': name}
     if isinstance(e, ge.GematoException):
         return {'err': 'gemato:' + type(e).__name__}
-    if isinstance(e, (gzip.BadGzipFile, lzma.LZMAError, EOFError)):
+    if isinstance(e, (gzip.BadGzipFile, lzma.LZMAError, EOFError, zlib.error)):
         return {'err': 'compress'}
     if isinstance(e, FileNotFoundError):
         return {'err': 'os:Gemato.L1.Errno.ENOENT'}
